@@ -310,6 +310,7 @@ func discharge(obs []*Obligation, opt solveOpts) {
 			}
 			var results []string
 			scalarTried := false
+			coiTried := false
 			sliceStart := 0
 			trySlice := func(defsOnly bool, to int) bool {
 				keep := o.sliceFrom(defsOnly, sliceStart)
@@ -377,7 +378,15 @@ func discharge(obs []*Obligation, opt solveOpts) {
 				r, text, ms := runSolver(solvers[0], file, short)
 				o.Ms += ms
 				win := solvers[0]
-				if r != "unsat" && r != "sat" && o.vc.nonlinear {
+				if r != "unsat" && r != "sat" && o.pos > 600 && !coiTried {
+					// the cone of influence of the goal is usually a small part of a large VC and is decided
+					// far more reliably than the whole
+					coiTried = true
+					if trySlice(false, 6) {
+						return
+					}
+				}
+				if r != "unsat" && r != "sat" && o.vc.nonlinear && !scalarTried {
 					// arithmetic at heart: the scalar slice first (see scalarSlice)
 					if o.scalarSlice(file, opt, &results) {
 						return
@@ -439,7 +448,7 @@ func discharge(obs []*Obligation, opt solveOpts) {
 				o.Result, o.Backend = "vacuous", strings.Join(results, ",")
 				return
 			}
-			if !o.Cover && trySlice(false, 10) {
+			if !o.Cover && !coiTried && trySlice(false, 10) {
 				return
 			}
 			if !o.Cover && !scalarTried && o.scalarSlice(file, opt, &results) {
